@@ -7,6 +7,7 @@ import (
 
 	multiproof "github.com/crate-crypto/go-ipa"
 	"github.com/crate-crypto/go-ipa/bandersnatch/fr"
+	"github.com/crate-crypto/go-ipa/banderwagon"
 	"github.com/crate-crypto/go-ipa/common"
 	"github.com/crate-crypto/go-ipa/ipa"
 	"github.com/crate-crypto/go-ipa/zzverif/vsched"
@@ -64,6 +65,22 @@ func c01Case(r *core.Result, s stmt, cpu int, refVerify bool) {
 			break
 		}
 	}
+	if perr == nil && ok && verr == nil {
+		// a verifier that holds its OWN copies of the commitments, never touched by the prover, in projective
+		// representations (the prover normalised the objects it was given)
+		cs := make([]*banderwagon.Element, len(is.Cs))
+		for i := range cs {
+			e := reprOf(*is.Cs[i], []int{reprProj, reprProjFlip, reprFlip}[i%3])
+			cs[i] = &e
+		}
+		var ok2 bool
+		var verr2 error
+		if timed(r, "c01.panic", "CheckMultiProof", in+" (verifier-side copies of the commitments in projective form)", func() {
+			ok2, verr2 = multiproof.CheckMultiProof(common.NewTranscript(s.label), c, proof, cs, is.ys, is.zs)
+		}) && (!ok2 || verr2 != nil) {
+			vio(r, "c01.verify", "CheckMultiProof", in+" (verifier-side copies of the commitments in projective form)", "(true, nil)", fmt.Sprintf("(%v, %v)", ok2, verr2))
+		}
+	}
 	if refVerify && perr == nil {
 		acc, shape := ref.MultiVerify(ref.NewTranscript(s.label), ref.SRS(), elToRef(&proof.D), refIPAProof(proof.IPA), rc, rys, s.zs)
 		if !acc || shape {
@@ -89,7 +106,7 @@ func c01Units(ctx *core.Ctx) []core.Unit {
 	if ctx.Thorough() {
 		zset = z7
 	}
-	cpus := []int{1, 2, 3, 16, 17}
+	cpus := []int{1, 2, 3, 16, 17, 48, 96}
 	if ctx.Thorough() {
 		cpus = append(cpus, 4, 5, 8, 32, 64, 300)
 	}
